@@ -218,8 +218,8 @@ def build_universe(tier, rng):
     # depth 4 and 5: seeded sample on top of the full depth-3 closure
     d4 = [s for s in U.grow(rng.sample(d3, min(len(d3), 120)), 4, rng) if s.depth == 4]
     d5 = [s for s in U.grow(rng.sample(d4, min(len(d4), 40)), 5, rng) if s.depth == 5]
-    cap = int(os.environ.get("VERIF_C13_CAP", "1500"))
-    full = d3 + rng.sample(d4, min(len(d4), 400)) + rng.sample(d5, min(len(d5), 150))
+    cap = int(os.environ.get("VERIF_C13_CAP", "3000"))
+    full = d3 + rng.sample(d4, min(len(d4), 1200)) + rng.sample(d5, min(len(d5), 500))
     if len(full) > cap:
         base = U.pairwise_cover(full, rng)
         rest = [s for s in full if s.key() not in {b.key() for b in base}]
@@ -234,6 +234,7 @@ def check(tier):
     rep.rule("C13.reject", "each catalogued ill-kinded program is rejected by the stated constraint", floor=15)
     rng = random.Random(common.seed())
     stacks, usize, _ = build_universe(tier, rng)
+    stacks = [s for s in stacks if s.view_bytes_upper() <= 256]      # larger views are rejected by a stated constraint (catalogue)
     ws = []
     for s in stacks:
         for opid, code in op_witnesses(s):
